@@ -132,10 +132,11 @@ theorem append_ok (reg : Registry) (pipe : List UInt8) (h1 : pipe.length ≤ 255
     obtain ⟨f, hf, _⟩ := h2 i hi; simp [hf]
   simp [this]; omega
 
-theorem unpack_pack (reg : Registry) (limit cap0 : Nat) (m : Msg) (bs rest : Bytes) (sz : Nat)
+theorem unpack_pack (reg : Registry) (limit : Nat) (m : Msg) (bs rest : Bytes) (sz : Nat)
     (hw : WF reg m) (hp : pack reg limit m = .ok (bs, sz)) (hlt : bs.length < 4294967296) :
-    unpack reg limit cap0 (bs ++ rest) =
-      { out := .ok { m with size := sz } rest, consumed := bs.length, alloc := max 4 (bs.length - 4) }
+    unpack reg limit (bs ++ rest) =
+      { out := .ok { m with size := sz } rest, consumed := bs.length, alloc := max 4 (bs.length - 4),
+        maxReq := max (max 4 m.pipe.length) (bs.length - (5 + m.pipe.length)) }
     ∧ sz = bs.length := by
   unfold pack at hp
   have hm : ¬ m.method.length > 255 := by have := hw.method; omega
@@ -163,20 +164,16 @@ theorem unpack_pack (reg : Registry) (limit cap0 : Nat) (m : Msg) (bs rest : Byt
       have c1 : ¬ (4 + 1 + m.pipe.length + p.length > limit) := hlim
       have c2 : ¬ (4 + 1 + m.pipe.length + p.length < 4) := by omega
       simp only [c1, c2, if_false]
-      have c3 : ¬ ((if cap0 < 4 + 1 + m.pipe.length + p.length - 4 then 4 + 1 + m.pipe.length + p.length - 4 else cap0) < 1) := by
-        split <;> omega
+      have c3 : ¬ (4 + 1 + m.pipe.length + p.length - 4 < 1) := by omega
       simp only [c3, if_false]
       unfold unpackXfer
       have e1 : (m.pipe.length % 256).toUInt8.toNat = m.pipe.length := toUInt8_toNat _ (by omega)
       simp only [e1]
-      have c4 : ¬ ((if cap0 < 4 + 1 + m.pipe.length + p.length - 4 then 4 + 1 + m.pipe.length + p.length - 4 else cap0) < m.pipe.length) := by
-        split <;> omega
+      have c4 : ¬ (4 + 1 + m.pipe.length + p.length - 4 - 1 < m.pipe.length) := by omega
       simp only [c4, if_false]
       rw [take?_append m.pipe _ _ rfl]
       simp only [append_ok reg m.pipe hpl hw.pipeReg]
       unfold unpackTail
-      have c5 : ¬ (4 + 1 + m.pipe.length + p.length - 4 < 1 + m.pipe.length) := by omega
-      simp only [c5, if_false]
       rw [take?_append p rest _ (by omega)]
       simp only [onUnpack_onPack reg m.pipe hw.pipeReg _ _ hx]
       rw [parseData_payload m hw.toWFHeader]
